@@ -98,12 +98,23 @@ Def(n, e)   == [k |-> "def", n |-> n, e |-> e]            \* top-level or intern
 Body(ds, e) == [k |-> "body", ds |-> ds, e |-> e]         \* internal defines then expression
 P(op, as)   == App(Var(op), as)                           \* call of a (global) primitive
 I(n)        == C(IntV(n))
+\* an iteration count that is SMALL in the reference machine and LARGE in the rendered program
+\* (used by the constant-space families: the observable must not depend on the count)
+BigN        == [k |-> "cbig"]
+BigNModel   == 5
+BigNText    == "100000"
+MidN        == [k |-> "cmid"]        \* same idea, a count that stays cheap when space is NOT constant
+MidNText    == "320"
+\* half of each (the counts are multiples of 16 so that loop unrolling by the optimiser leaves the
+\* same residue: only GROWTH with the count is observed, not the phase of an unrolled body)
+BigHalf     == [k |-> "cbighalf"]
+MidHalf     == [k |-> "cmidhalf"]
 
 ------------------------------------------------------------------------PrimNames == {"+", "-", "*", "=", "<", ">", "car", "cdr", "cons", "list", "null?", "pair?",
               "not", "eq?", "equal?", "length", "append", "reverse", "apply", "map", "for-each",
               "foldl", "filter", "vector", "vector-ref", "vector-length", "box", "unbox", "set-box!",
               "emit", "call/cc", "dynamic-wind", "error", "void?", "procedure?", "integer?",
-              "symbol?", "zero?", "list-ref", "cadr"}
+              "symbol?", "zero?", "list-ref", "cadr", "#%verif-depth", "depth=?"}
 
 -----
 (* Rendering: Scheme source text and Steel's printed form of values *)
@@ -156,6 +167,10 @@ RBinds(bs) == Join([i \in 1..Len(bs) |-> "[" \o Nm(bs[i][1]) \o " " \o R(bs[i][2
 RSeq(es)   == Join([i \in 1..Len(es) |-> R(es[i])], " ")
 R(e) ==
   CASE e.k = "c"   -> Quoted(e.v)
+    [] e.k = "cbig" -> BigNText
+    [] e.k = "cmid" -> MidNText
+    [] e.k = "cbighalf" -> "50000"
+    [] e.k = "cmidhalf" -> "160"
     [] e.k = "var" -> Nm(e.n)
     [] e.k = "lam" -> "(lambda " \o
                       (IF e.rest = "" THEN "(" \o Join(NmSeq(e.ps), " ") \o ")"
@@ -283,6 +298,10 @@ Delta(op, as) ==
                             ELSE OkR(BoolV(as[1].k \in {"clo", "prim", "kont"}))
     [] op = "not" -> IF n # 1 THEN ErrR("ArityMismatch") ELSE OkR(BoolV(~Truthy(as[1])))
     [] op = "eq?" -> IF n # 2 THEN ErrR("ArityMismatch") ELSE OkR(BoolV(EqV(as[1], as[2])))
+    \* two control-stack depths denote the same space class.  Exact equality in the reference
+    \* machine; the host function of the same name on the real engine tolerates a bounded
+    \* difference (loop unrolling by the optimiser changes the phase, not the growth)
+    [] op = "depth=?" -> IF n # 2 THEN ErrR("ArityMismatch") ELSE OkR(BoolV(as[1] = as[2]))
     [] op = "equal?" -> IF n # 2 THEN ErrR("ArityMismatch") ELSE OkR(BoolV(EqualV(as[1], as[2])))
     [] op = "length" -> IF n # 1 THEN ErrR("ArityMismatch")
                         ELSE IF IsList(as[1]) THEN OkR(IntV(Len(SeqOf(as[1])))) ELSE ErrR("TypeMismatch")
@@ -303,7 +322,7 @@ Delta(op, as) ==
                             ELSE OkR(as[1].es[as[2].i + 1])
     [] OTHER -> ErrR("Generic")
 
-PurePrims == {"+", "-", "*", "=", "<", ">", "zero?", "car", "cdr", "cadr", "cons", "list", "null?",
+PurePrims == {"depth=?", "+", "-", "*", "=", "<", ">", "zero?", "car", "cdr", "cadr", "cons", "list", "null?",
               "pair?", "void?", "integer?", "symbol?", "procedure?", "not", "eq?", "equal?",
               "length", "append", "reverse", "list-ref", "vector", "vector-length", "vector-ref"}
 
@@ -462,6 +481,8 @@ EvalStep ==
   /\ phase = "run" /\ fi > 0 /\ mode = "eval"
   /\ LET e == ctrl IN
      CASE e.k = "c" -> /\ ctrl' = e.v /\ mode' = "ret" /\ UNCHANGED <<env, store, kont>>
+       [] e.k \in {"cbig", "cmid"} -> /\ ctrl' = IntV(BigNModel) /\ mode' = "ret" /\ UNCHANGED <<env, store, kont>>
+       [] e.k \in {"cbighalf", "cmidhalf"} -> /\ ctrl' = IntV(3) /\ mode' = "ret" /\ UNCHANGED <<env, store, kont>>
        [] e.k = "var" ->
             LET l == Lookup(env, e.n) IN
             IF l = -1 THEN /\ Raise("FreeIdentifier") /\ UNCHANGED <<env, store, kont>>
@@ -679,6 +700,10 @@ ApplyStep ==
                    ELSE /\ out' = [out EXCEPT ![ui] = Append(@, Show(as[1]))]
                         /\ ctrl' = Void /\ mode' = "ret" /\ UNCHANGED <<env, store, kont, winders>>
               [] op = "error" -> /\ Raise("Generic") /\ UNCHANGED <<env, store, kont, winders, out>>
+              \* depth of the control stack: in the reference machine the number of continuation
+              \* frames (only EQUALITY of two depths is ever observed)
+              [] op = "#%verif-depth" -> /\ ctrl' = IntV(Len(kont)) /\ mode' = "ret"
+                                         /\ UNCHANGED <<env, store, kont, winders, out>>
               [] op = "box" ->
                    IF n # 1 THEN /\ Raise("ArityMismatch") /\ UNCHANGED <<env, store, kont, winders, out>>
                    ELSE /\ store' = Append(store, as[1]) /\ ctrl' = BoxV(Len(store) + 1) /\ mode' = "ret"
